@@ -4,6 +4,7 @@ package main
 // C16 (command line), evaluated on the implementation.  Written from the property texts.
 
 import (
+	"math"
 	"fmt"
 	"os"
 	"reflect"
@@ -358,6 +359,33 @@ func oracleC12(f []string) string {
 	return "ok"
 }
 
+// oracleC12Growth: f[0] and f[1] are two programs of one family, the second with one more statement.
+// "Finishing within seconds for inputs of a few kilobytes" fails for a family whose output doubles
+// with every statement of some 20 bytes: the verdict extrapolates the measured growth to the member
+// of 2 KiB (it is not run: its output would not fit in memory).
+func oracleC12Growth(f []string) string {
+	if len(f) < 2 {
+		return "ok"
+	}
+	a, b := unhx(f[0]), unhx(f[1])
+	oa, ea := pql.Compile(a)
+	ob, eb := pql.Compile(b)
+	if ea != nil || eb != nil || len(b) <= len(a) || len(oa) == 0 {
+		return "ok"
+	}
+	ratio := float64(len(ob)) / float64(len(oa))
+	if ratio < 1.5 {
+		return "ok"
+	}
+	steps := float64(2048-len(b)) / float64(len(b)-len(a))
+	log2 := math.Log2(float64(len(ob))) + steps*math.Log2(ratio)
+	if log2 < 36 { // less than 64 GiB of SQL for the 2 KiB member: not counted
+		return "ok"
+	}
+	return fmt.Sprintf("FAIL blowup: %d bytes compile to %d bytes of SQL and %d bytes (one more statement) to %d: the output grows x%.2f per statement of %d bytes, so the 2 KiB program of this shape needs about 2^%.0f bytes of SQL - Compile cannot finish within seconds",
+		len(a), len(oa), len(b), len(ob), ratio, len(b)-len(a), log2)
+}
+
 // ---------------------------------------------------------------------------- C13
 
 type rulesChecker struct {
@@ -687,6 +715,7 @@ func clip(s string) string {
 func init() {
 	stages["oracle-C07"] = func(f []string) string { return oracleC07(unhx(f[0]), 1) }
 	stages["oracle-C12"] = oracleC12
+	stages["oracle-C12-growth"] = oracleC12Growth
 	stages["oracle-C13"] = oracleC13
 	stages["oracle-C14"] = oracleC14
 	stages["oracle-C16"] = oracleC16
